@@ -39,6 +39,8 @@ def patches():
         out.append((n, f, declared.get(n)))
     for f in sorted(glob.glob(os.path.join(VERIF, "benign", "*.diff"))):
         out.append(("benign-" + os.path.basename(f)[:-5], f, None))
+    for f in sorted(glob.glob(os.path.join(VERIF, "mechanical", "*.diff"))):
+        out.append(("mech-" + os.path.basename(f)[:-5], f, None))
     for d in sorted(glob.glob(os.path.join(VERIF, "seeded", "*"))):
         f = os.path.join(d, "patch.diff")
         if os.path.exists(f):
@@ -49,6 +51,9 @@ def patches():
                 pass
             out.append((os.path.basename(d), f, meta.get("property")))
     return out
+
+
+FIRST_CATCH = False
 
 
 def run_one(name, patch, props, tier, with_target):
@@ -87,6 +92,8 @@ def run_one(name, patch, props, tier, with_target):
             sigs = [l.strip()[len("signature: "):] for l in out.splitlines() if l.strip().startswith("signature: ")]
             res["results"][p] = {"exit": rc, "signatures": sigs[:6], "wall_s": round(time.time() - t0, 1),
                                  "note": "" if rc in (0, 1) else out[-300:]}
+            if FIRST_CATCH and rc == 1:
+                break
     except Exception as ex:  # noqa
         res["error"] = repr(ex)
     finally:
@@ -100,6 +107,8 @@ def main():
     def opt(flag, default):
         return a[a.index(flag) + 1] if flag in a else default
 
+    global FIRST_CATCH
+    FIRST_CATCH = "--first-catch" in a
     jobs = int(opt("--jobs", "2"))
     props = opt("--props", ",".join(PROPS)).split(",")
     only = opt("--only", None)
